@@ -109,8 +109,8 @@ def skeletons(tier):
     out.append(("deep", Schema(structs=[("B", [("z", "id3", ("u", "w0")), ("z2", "id4", ("f32",))]),
                                         ("A", [("y", "id1", ("struct", "B")), ("k", "id2", ("i", "w1"))]),
                                         ("S", [("x", 1, ("struct", "A")), ("t", 0, ("u", 1))])], impls=can)))
-    out.append(("enum_only", Schema(structs=[("S", [("a", 0, ("enum", "E")), ("b", 1, ("enum", "E")), ("c", 2, ("u", 1))])],
-                                    enums=E, impls=can)))
+    out.append(("enum_only", Schema(structs=[("S", [("a", 0, ("enum", "E")), ("b", 1, ("enum", "G")), ("c", 2, ("u", 1))])],
+                                    enums={"E": [("A", 0), ("Z", "m0")], "G": [("P", "m1"), ("Q", 1), ("R", 0)]}, impls=can)))
     sig = [("f1", {"endianess": "big", "mux_count": 4, "mux_signal": "f0"})]
     out.append(("options", Schema(structs=[("In", [("f1", 0, ("u", 3)), ("h", 1, ("u", 2))]),
                                            ("S", [("f0", "id0", ("u", 8)), ("f1", "id1", ("u", 16)),
